@@ -83,6 +83,15 @@ ElemParam::startElement(StylesheetExecutionContext&     executionContext) const
                     executionContext,                   
                     *this));
         }
+
+        // Bind the passed value in this template's own frame.  The passed
+        // parameters are shared by every template that one xsl:apply-templates
+        // instantiates, so the binding must not be made by changing the
+        // shared entry (see VariablesStack::findEntry).
+        executionContext.pushVariable(
+                *m_qname,
+                obj,
+                getParentNodeElem());
     }
     return 0;
 }
@@ -127,6 +136,12 @@ ElemParam::execute(StylesheetExecutionContext&      executionContext) const
                     executionContext,                   
                     *this));
         }
+
+        // See startElement(): bind the passed value in this template's frame.
+        executionContext.pushVariable(
+                *m_qname,
+                obj,
+                getParentNodeElem());
     }
 }
 #endif
